@@ -90,3 +90,13 @@ func StaleColumnTable(cols [][]uint8, limit int) int {
 func window(start, length int) int { return start + 2*length }
 
 func SwappedArguments(start, length int) int { return window(length, start) }
+
+// ---- paired-lines
+func HalfRenamedPair(seq1, seq2 []uint8) (bool, bool) {
+	gaps1, gaps2 := true, true
+	for i := range seq1 {
+		gaps1 = gaps1 && seq1[i] == '-'
+		gaps2 = gaps2 && seq1[i] == '-'
+	}
+	return gaps1, gaps2
+}
